@@ -279,8 +279,11 @@ struct decoder_greedy<E, T, true>
         while(true)
         {
             v.push_back(T());
+            const uint8_t* element = pos;
             if (!decoder<E, T>::decode(v.back(), pos, end))
             {
+                /// bytes of an incomplete trailing element are not consumed
+                pos = element;
                 v.pop_back();
                 return true;
             }
